@@ -183,14 +183,39 @@ func VerifC19_Streaming() {
 
 // C19: bad Accept headers, resource types and keys give a 400 API error, never a panic.
 func VerifC19_BadRequests() {
-	accepts := [][]string{nil, {""}, {"application/json"}, {"text/html"}, {"application/json;;=="}, {"a/b, */*"}, {"application/x-ndjson", "bogus/"}}
-	paths := []string{"/multihash/" + c19mh().B58String(), "/multihash/" + c19mh().HexString(), "/cid/bafkqaaa", "/cid/notacid", "/multihash/%%%", "/multihash/", "/", "", "/other/xyz", "/multihash/zzzz0OIl", "/a/b/c/multihash/11"}
-	accept := accepts[verif_Choose("accept", 0, len(accepts)-1)]
-	p := paths[verif_Choose("path", 0, len(paths)-1)]
+	type acc struct {
+		vals                 []string
+		malformed, supported bool
+	}
+	accepts := []acc{
+		{nil, false, false},
+		{[]string{""}, true, false},
+		{[]string{"application/json"}, false, true},
+		{[]string{"text/html"}, false, false},
+		{[]string{"application/json;;=="}, true, true},
+		{[]string{"a/b, */*"}, false, true},
+		{[]string{"application/x-ndjson", "bogus/"}, true, true}, // a supported type and a malformed element
+		{[]string{"bogus/, */*"}, true, true},
+		{[]string{"application/json; q=0.9, application/x-ndjson"}, false, true},
+	}
+	type pth struct {
+		p     string
+		valid bool
+	}
+	paths := []pth{
+		{"/multihash/" + c19mh().B58String(), true}, {"/multihash/" + c19mh().HexString(), true}, {"/cid/bafkqaaa", true},
+		{"/cid/notacid", false}, {"/multihash/%%%", false}, {"/multihash/", false}, {"/", false}, {"", false}, {"/other/xyz", false},
+		{"/multihash/zzzz0OIl", false},
+		// the resource type is the second-to-last path element, wherever the handler is mounted
+		{"/a/b/c/multihash/11", true}, {"/v1/multihash/" + c19mh().B58String(), true}, {"/ipni/v1/cid/bafkqaaa", true},
+		{"/multihash/v1/" + c19mh().B58String(), false},
+	}
+	ac := accepts[verif_Choose("accept", 0, len(accepts)-1)]
+	pt := paths[verif_Choose("path", 0, len(paths)-1)]
 	preferJson := verif_Bool("preferJson")
 	rec := &c19rec{hdr: http.Header{}, status: http.StatusOK}
-	req := &http.Request{Method: http.MethodGet, URL: &url.URL{Path: p}, Header: http.Header{}}
-	for _, a := range accept {
+	req := &http.Request{Method: http.MethodGet, URL: &url.URL{Path: pt.p}, Header: http.Header{}}
+	for _, a := range ac.vals {
 		req.Header.Add("Accept", a)
 	}
 	rw, err := New(rec, req, WithPreferJson(preferJson))
@@ -201,9 +226,21 @@ func VerifC19_BadRequests() {
 		verif_Assert(rw == nil, "no writer on error")
 	} else {
 		verif_Assert(rw != nil && rw.StatusCode() == http.StatusOK && len(rw.Multihash()) > 0, "an accepted request yields a writer for a well-formed multihash")
-		if len(accept) == 0 {
+		if len(ac.vals) == 0 {
 			verif_Assert(preferJson, "a missing Accept header is accepted only with the JSON preference")
 		}
+	}
+	if ac.malformed {
+		verif_Assert(err != nil, "a malformed Accept header is answered with a 400 API error, whatever else it names")
+	}
+	if len(ac.vals) > 0 && !ac.supported {
+		verif_Assert(err != nil, "an Accept header naming no supported media type is answered with a 400 API error")
+	}
+	if !pt.valid {
+		verif_Assert(err != nil, "a request whose key or resource type is malformed is answered with a 400 API error")
+	}
+	if pt.valid && !ac.malformed && (ac.supported || (len(ac.vals) == 0 && preferJson)) {
+		verif_Assert(err == nil, "a valid multihash or CID request with an acceptable Accept header is served")
 	}
 }
 
